@@ -325,6 +325,124 @@ pub fn run(ctx: &mut Ctx) {
         check_one(ctx, *d, &m, "mutation");
     }
     ctx.sample_cap = 20;
+    if ctx.tier == crate::ctx::Tier::Thorough {
+        fuzz_campaign(ctx, &seeds);
+    }
+}
+
+fn selector(d: Dec) -> Option<u8> {
+    Some(match d {
+        Dec::Slip => 0,
+        Dec::Hop => 1,
+        Dec::Transaction | Dec::GoldenTicket => 2,
+        Dec::Block => 3,
+        Dec::Message => 4,
+        Dec::HandshakeChallenge => 5,
+        Dec::HandshakeResponse => 6,
+        Dec::BlockchainRequest => 7,
+        Dec::Services => 8,
+        Dec::Version => 9,
+        Dec::WalletDisk => 10,
+        Dec::BalanceSnapshot => 11,
+    })
+}
+fn dec_of_selector(s: u8) -> Dec {
+    match s % 12 {
+        0 => Dec::Slip,
+        1 => Dec::Hop,
+        2 => Dec::Transaction,
+        3 => Dec::Block,
+        4 => Dec::Message,
+        5 => Dec::HandshakeChallenge,
+        6 => Dec::HandshakeResponse,
+        7 => Dec::BlockchainRequest,
+        8 => Dec::Services,
+        9 => Dec::Version,
+        10 => Dec::WalletDisk,
+        _ => Dec::BalanceSnapshot,
+    }
+}
+
+/// Writes the valid encodings as a libFuzzer corpus (first byte = decoder selector).
+pub fn write_corpus(dir: &str, seed: u64, per: usize) -> usize {
+    let _ = std::fs::create_dir_all(dir);
+    let mut n = 0;
+    for (i, (d, enc)) in seeds(seed, per).iter().enumerate() {
+        if let Some(s) = selector(*d) {
+            let mut b = vec![s];
+            b.extend_from_slice(enc);
+            if std::fs::write(format!("{dir}/seed_{i:04}"), b).is_ok() {
+                n += 1;
+            }
+        }
+    }
+    n
+}
+
+/// Thorough tier: coverage-guided campaigns (cargo-fuzz / libFuzzer with ASan) over the same
+/// decoders, once from the valid-encoding corpus and once from an empty corpus. Fixed -runs and
+/// -seed; a crash artifact becomes a violation whose replay is the input itself.
+fn fuzz_campaign(ctx: &mut Ctx, _seeds: &[(Dec, Vec<u8>)]) {
+    let fuzz_dir = format!("{}/fuzz", crate::ctx::VERIF_DIR);
+    let work = format!("{fuzz_dir}/work");
+    let _ = std::fs::remove_dir_all(&work);
+    let _ = std::fs::remove_dir_all(format!("{fuzz_dir}/artifacts"));
+    let runs = std::env::var("VERIF_FUZZ_RUNS").ok().and_then(|s| s.parse::<u64>().ok()).unwrap_or(3_000_000);
+    let mut report = vec![];
+    for (name, seeded) in [("seeded_corpus", true), ("empty_corpus", false)] {
+        let corpus = format!("{work}/{name}");
+        let _ = std::fs::create_dir_all(&corpus);
+        let written = if seeded { write_corpus(&corpus, ctx.seed, 30) } else { 0 };
+        let out = std::process::Command::new("cargo")
+            // -O: optimised build WITHOUT debug assertions / overflow checks, i.e. production arithmetic
+            // (cargo-fuzz's default build would turn wrapping sums inside Block::generate into panics)
+            .args(["+nightly", "fuzz", "run", "-O", "--fuzz-dir", &fuzz_dir, "decoders", &corpus, "--"])
+            .arg(format!("-runs={runs}"))
+            .arg(format!("-seed={}", ctx.seed.max(1)))
+            .args(["-max_len=6000", "-len_control=0", "-rss_limit_mb=3000", "-malloc_limit_mb=512", "-timeout=20", "-print_final_stats=1"])
+            .env("CARGO_NET_OFFLINE", "true")
+            .output();
+        match out {
+            Ok(o) => {
+                let err = String::from_utf8_lossy(&o.stderr);
+                let execs = err.lines().find(|l| l.contains("stat::number_of_executed_units")).and_then(|l| l.split_whitespace().last()).and_then(|x| x.parse::<u64>().ok()).unwrap_or(0);
+                let cov = err.lines().rev().find(|l| l.contains("cov:")).map(|l| l.trim().chars().take(120).collect::<String>()).unwrap_or_default();
+                ctx.evals(execs);
+                report.push(json!({"campaign": name, "corpus_files": written, "runs_requested": runs, "executed": execs, "exit_ok": o.status.success(), "last_status_line": cov}));
+                if !o.status.success() && execs == 0 && !err.contains("SUMMARY") {
+                    ctx.extra.insert(format!("fuzz_infra_problem_{name}"), json!(err.lines().rev().take(5).collect::<Vec<_>>()));
+                }
+            }
+            Err(e) => {
+                ctx.extra.insert(format!("fuzz_infra_problem_{name}"), json!(e.to_string()));
+            }
+        }
+        // artifacts = crashing inputs
+        if let Ok(rd) = std::fs::read_dir(format!("{fuzz_dir}/artifacts/decoders")) {
+            for f in rd.filter_map(|e| e.ok()) {
+                if let Ok(bytes) = std::fs::read(f.path()) {
+                    if bytes.is_empty() {
+                        continue;
+                    }
+                    let d = dec_of_selector(bytes[0]);
+                    let body = &bytes[1..];
+                    let before = ctx.violations.len() + ctx.known_hits.len();
+                    check_one(ctx, d, body, "libfuzzer_artifact");
+                    if ctx.violations.len() + ctx.known_hits.len() == before {
+                        // the in-target oracle (round trip / sanitizer) fired, not a decoder panic
+                        ctx.violation(
+                            &format!("C10|fuzz_target_oracle|decoder={:?}", d),
+                            format!("libFuzzer found an input on which the in-target oracle fails for {:?} ({} bytes): {}", d, body.len(), f.path().display()),
+                            json!({"decoder": d, "hex": hex::encode(body), "len": body.len(), "origin": "libfuzzer_artifact"}),
+                        );
+                    }
+                }
+            }
+        }
+        let _ = std::fs::remove_dir_all(format!("{fuzz_dir}/artifacts"));
+    }
+    let _ = std::fs::remove_dir_all(&work);
+    ctx.extra.insert("libfuzzer_campaigns".into(), json!(report));
 }
 
 /// Replays a saved input: {"decoder": "...", "hex": "..."}.
